@@ -251,6 +251,16 @@ class Ctx:
             if rc == 0 and "TRACE-ACCEPTED" in out and not m:
                 accepted += len(pending)
                 break
+            ill_typed = None
+            if not m and rc != 0 and "The behavior up to this point" in out:
+                # TLC refuses to compare values of different kinds (e.g. an integer with a string) instead of answering
+                # FALSE: the event being explained carries a value of a shape no specification state has. That is a
+                # rejection of that event, not a failure of the tool.
+                dm = re.search(r"(Attempted to (?:check equality|compare|apply|select|access)[^\n]*(?:\n[^\n]*){0,2})", out)
+                pos = [int(x) for x in re.findall(r"^/\\ l = (\d+)", out, re.M)]
+                if dm and pos:
+                    ill_typed = " ".join(dm.group(1).split())[:240]
+                    m = re.match(r"(\d+)", str(pos[-1]))
             if not m:
                 with open(os.path.join(self.work, "trace-%s-%d-%d.out" % (module, idx, rnd)), "w") as f:
                     f.write(out)
@@ -265,7 +275,11 @@ class Ctx:
             scn, evs = pending[si]
             first = owner.index(si)
             failed = sorted(set(re.findall(r'<<"FAILED", "([^"]+)", %d>>' % line, out)))
-            if failed_inv:
+            if ill_typed:
+                what = "event %d of the scenario cannot be a step of %s: it carries a value of a kind the specification never has (%s): %s" % (
+                    line - first, module, ill_typed, json.dumps(evs[min(max(line - 1 - first, 0), len(evs) - 1)])[:300])
+                state = None
+            elif failed_inv:
                 what = "invariant %s of %s violated while explaining the scenario (near event %d)" % (
                     failed_inv, module, line - first)
                 state = out[out.rfind("\nState "):][:6000] if "\nState " in out else None
